@@ -5,10 +5,13 @@ import os, sys, json, subprocess, re, glob, time
 ROOT = os.path.dirname(os.path.dirname(os.path.abspath(__file__)))
 res_path = os.path.join(ROOT, "seeded", "RESULTS.json")
 res = json.load(open(res_path)) if os.path.exists(res_path) else {}
-want = sys.argv[1:]
+want = [a for a in sys.argv[1:] if not a.startswith("--")]
+only_new = "--new" in sys.argv
 for d in sorted(glob.glob(os.path.join(ROOT, "seeded", "C*-*"))):
     sid = os.path.basename(d)
     if want and sid not in want:
+        continue
+    if only_new and sid in res:
         continue
     meta = json.load(open(os.path.join(d, "meta.json")))
     if meta.get("status") != "confirmed":
